@@ -140,9 +140,14 @@ func main() {
 		sort.Strings(keys)
 		fmt.Println("# functions of the tree the rules were confirmed on; anything else is a helper that internal/normal expands")
 		last := ""
+		plumbing := normal.Plumbing()
 		for _, k := range keys {
 			if k != last {
-				fmt.Println(k)
+				if plumbing[strings.SplitN(k, "|", 2)[0]] {
+					fmt.Println("~" + k) // plumbing helper: always expanded at hand-written call sites
+				} else {
+					fmt.Println(k)
+				}
 			}
 			last = k
 		}
